@@ -104,6 +104,14 @@ def neutral(obj, ns_name, depth=0):
             v = bool(v) and not bool(getattr(obj, 'skip', False))
         if a == 'skip' and cls not in ('Parameter', 'Return'):
             continue
+        if a == 'target' and cls == 'Alias' and v is not None:
+            # the GIR writes the target of an alias as one flat <type name= c:type=> (the typelib compiler accepts nothing
+            # else there), so for an alias of a container only the name and the C type are API
+            tn = type_neutral(v)
+            v = ('alias-target', {'array': lambda: tn[1], 'list': lambda: tn[1], 'map': lambda: 'GLib.HashTable'}.get(tn[0], lambda: tn[1] or tn[2])(),
+                 getattr(v, 'complete_ctype', None) or getattr(v, 'ctype', None))
+            out[a] = v
+            continue
         if a == 'attributes':
             v = dict(v) if v else {}
         if a == 'doc' and v == '':
@@ -199,6 +207,16 @@ def rich_library(seed, idx):
         if rng.random() < 0.3:
             lines.append(' * Stability: %s%s' % (rng.choice(['Stable', 'Unstable', 'Private']), rng.choice(['', '', ': stability text'])))
         lines.append(' */')
+        src.add('\n'.join(lines))
+        src.add('')
+    # arrays with every combination of length, fixed-size and zero-terminated
+    for i in range(rng.choice([1, 2, 3])):
+        name = 'foo_arr%d' % i
+        hdr.add(apigen.render_function(name, rng.choice(['void', 'gint *']), [('guint8 *', 'data'), ('gsize', 'n_used'), ('gchar **', 'names')]))
+        opts = rng.sample(['length=n_used', 'fixed-size=%d' % rng.choice([1, 4, 16]), 'zero-terminated=%d' % rng.choice([0, 1])], rng.choice([1, 2, 3]))
+        lines = ['/**', ' * %s:' % name, ' * @data: (array %s): bytes' % ' '.join(opts), ' * @n_used: used',
+                 ' * @names: (array %s) (nullable): names' % rng.choice(['zero-terminated=1', 'fixed-size=2', 'zero-terminated=1 fixed-size=3']),
+                 ' *', ' * Arrays.', ' *', ' * Returns: (array fixed-size=%d) (transfer none): numbers' % rng.choice([2, 5]), ' */']
         src.add('\n'.join(lines))
         src.add('')
     # documented types, fields, constants, enum members
